@@ -33,7 +33,7 @@ def run(c):
         c.drive(drv, ["stress", t])
         traces.append(t)
         t = c.rundir / "rand.ndjson"
-        c.drive(drv, ["random", c.seed, c.pick(400, 8000), t])
+        c.drive(drv, ["random", c.seed, c.pick(1000, 8000), t])
         traces.append(t)
     distinct = set()
     hit_l = hit_a = 0
